@@ -69,6 +69,7 @@ def _live(draw):
         else:
             j["bytes"] = draw(junk_bytes)
             j["n"] = draw(st.sampled_from([1, 1, 1, 2]))
+            j["glue"] = draw(st.sampled_from([False, False, True]))   # prefixed to the next valid message, in the same datagram
         junk.append(j)
     return {"kind": "live", "hist": hist, "junk": junk, "tail": draw(st.sampled_from([0.5, 4.0])),
             "timeout": draw(st.sampled_from([0, 0.005]))}
@@ -302,8 +303,13 @@ def _play(case, with_junk):
         for j in case["junk"]:
             junk_at.setdefault(min(j["pos"], len(case["hist"])), []).append(j)
 
+        glued = {}
+
         def do_junk(pos):
             for j in junk_at.get(pos, []):
+                if j.get("glue") and pos < len(case["hist"]) and j["bytes"]["kind"] != "nounicast":
+                    glued[pos] = glued.get(pos, b"") + junk_datagram(j["bytes"])[0] * max(1, j.get("n", 1))
+                    continue
                 a = ADDRS[j["from"] % len(ADDRS)]
                 spec = j["bytes"]
                 if spec["kind"] == "nounicast":
@@ -338,7 +344,19 @@ def _play(case, with_junk):
                 sess.reset((a, h["mc"]))
             flag, sid = sess.next((a, h["mc"]))
             data = sd_bytes(h["entries"], sid, reboot=flag)
-            sim.do_at(sim.now + h["dt"], deliver, data, a, h["mc"])
+            if n in glued:
+                # several messages in one datagram: rejected ones in front must not keep the valid one from being delivered
+                whole = glued[n] + data
+                kept, rej = classify(whole)
+                info["rejected"] += rej
+                info["junk_delivered"] += 1
+                if any(prot.discovery.found_services.store.values()) or any(inst.subscriptions.store.values()):
+                    info["state_when_junk"] = True
+                data = whole if with_junk else b"".join(kept)
+            if data:
+                sim.do_at(sim.now + h["dt"], deliver, data, a, h["mc"])
+            else:
+                sim.advance(h["dt"])
             do_junk(n + 1)
         sim.advance(case.get("tail", 0.5))
         final = state()
